@@ -78,10 +78,11 @@ type world struct {
 	io    iface.IO
 	ioDec *cbor.IOCbor
 	optsCache     map[string]*ipfslog.LogOptions
+	loadOpts      map[string]*ipfslog.LogOptions
 }
 
 type coreStats struct {
-	Histories, Ops, Appends, Joins, JoinNs, Loads, Iters, SetIds, TieHists, Forks, Exchanges, DeniedAppends, RejectedJoins, AclHists, Tampers, KeyedHists int
+	Histories, Ops, Appends, Joins, JoinNs, Loads, Iters, SetIds, TieHists, Forks, Exchanges, DeniedAppends, RejectedJoins, AclHists, Tampers, KeyedHists, DerivedCodecs int
 	OpHist                                                                                 map[string]int
 	DistinctNontrivial                                                                     int
 	shapes                                                                                 map[string]bool
@@ -518,6 +519,22 @@ func (w *world) doLoad(src int, kind string, n int, writer string, conc int) {
 				res = "panic"
 			}
 		}()
+		// an application that keeps one LogOptions value per way of loading and passes it again and again
+		// (a third of the histories): a loader must not leave anything of one load in it for the next
+		lo := func(kind string, fresh *ipfslog.LogOptions) *ipfslog.LogOptions {
+			if !w.reuseOpts {
+				return fresh
+			}
+			if w.loadOpts == nil {
+				w.loadOpts = map[string]*ipfslog.LogOptions{}
+			}
+			key := kind + "/" + s.sort + "/" + fresh.ID
+			if o, ok := w.loadOpts[key]; ok {
+				return o
+			}
+			w.loadOpts[key] = fresh
+			return fresh
+		}
 		switch kind {
 		case "mh":
 			var h cid.Cid
@@ -525,7 +542,7 @@ func (w *world) doLoad(src int, kind string, n int, writer string, conc int) {
 			if err != nil {
 				return
 			}
-			nl, err = ipfslog.NewFromMultihash(w.ctx, w.api, ident, h, &ipfslog.LogOptions{SortFn: sortFnOf(s.sort), IO: w.io},
+			nl, err = ipfslog.NewFromMultihash(w.ctx, w.api, ident, h, lo("mh", &ipfslog.LogOptions{SortFn: sortFnOf(s.sort), IO: w.io}),
 				&ipfslog.FetchOptions{Length: lp, Concurrency: conc, SortFn: sorting.NoZeroes(sortFnOf(s.sort))})
 		case "eh":
 			hs := s.log.Heads().Slice()
@@ -533,7 +550,7 @@ func (w *world) doLoad(src int, kind string, n int, writer string, conc int) {
 				err = fmt.Errorf("not single headed")
 				return
 			}
-			nl, err = ipfslog.NewFromEntryHash(w.ctx, w.api, ident, hs[0].GetHash(), &ipfslog.LogOptions{ID: s.id, SortFn: sortFnOf(s.sort), IO: w.io},
+			nl, err = ipfslog.NewFromEntryHash(w.ctx, w.api, ident, hs[0].GetHash(), lo("eh", &ipfslog.LogOptions{ID: s.id, SortFn: sortFnOf(s.sort), IO: w.io}),
 				&ipfslog.FetchOptions{Length: lp, Concurrency: conc})
 		case "json":
 			// one FetchOptions value per history, reused by every NewFromJSON (fresh LogOptions each time),
@@ -542,9 +559,9 @@ func (w *world) doLoad(src int, kind string, n int, writer string, conc int) {
 				w.jsonFO = &entry.FetchOptions{}
 			}
 			w.jsonFO.Length, w.jsonFO.Concurrency = lp, conc
-			nl, err = ipfslog.NewFromJSON(w.ctx, w.api, ident, s.log.ToJSONLog(), &ipfslog.LogOptions{SortFn: sortFnOf(s.sort), IO: w.io}, w.jsonFO)
+			nl, err = ipfslog.NewFromJSON(w.ctx, w.api, ident, s.log.ToJSONLog(), lo("json", &ipfslog.LogOptions{SortFn: sortFnOf(s.sort), IO: w.io}), w.jsonFO)
 		case "ent":
-			nl, err = ipfslog.NewFromEntry(w.ctx, w.api, ident, s.log.Heads().Slice(), &ipfslog.LogOptions{SortFn: sortFnOf(s.sort), IO: w.io},
+			nl, err = ipfslog.NewFromEntry(w.ctx, w.api, ident, s.log.Heads().Slice(), lo("ent", &ipfslog.LogOptions{SortFn: sortFnOf(s.sort), IO: w.io}),
 				&entry.FetchOptions{Length: lp, Concurrency: conc})
 		// in-memory copies through the constructor: the new replica must own its state, whatever the
 		// caller handed in (the live entry map, an accessor result, a freshly built map)
@@ -849,9 +866,17 @@ func runCore(seed int64, nHist, nOps int, out *bufio.Writer, thorough bool) *cor
 			for i := range kb {
 				kb[i] = 0 // the key buffer is wiped after construction: the SharedKey must own its bytes
 			}
-			w.ioDec = mustIO().ApplyOptions(&cbor.Options{LinkKey: lk})
+			keyedIO := mustIO().ApplyOptions(&cbor.Options{LinkKey: lk})
+			w.ioDec = keyedIO
 			w.io = w.ioDec
 			stats.KeyedHists++
+			// further codecs derived FROM the keyed one (a key-less codec for a public log, a decoder with the
+			// same key): deriving must not change the codec the logs of this history go on using
+			if r.Intn(2) == 0 {
+				_ = keyedIO.ApplyOptions(&cbor.Options{})
+				w.ioDec = keyedIO.ApplyOptions(&cbor.Options{LinkKey: lk})
+				stats.DerivedCodecs++
+			}
 		}
 		fmt.Fprintf(out, "H %d %d shared=%v bounded=%v sort=%s acl=%v keyed=%v\n", h, hs, shared, bounded, sk, acl, keyed)
 		for i := 0; i < nRep; i++ {
